@@ -333,9 +333,17 @@ def run_dot_completion(res, tier, seed):
             for l, t in cons[0].items():
                 if rng.random() < 0.6:
                     fs[l] = t if rng.random() < 0.7 else rng.choice(tys[:5])
+        # a constructor without any labelled field (written without parentheses, with empty ones, or with positional fields only):
+        # the type then has no accessor at all
+        bare = {}
+        for i in range(ncons):
+            if rng.random() < (0.3 if i else 0.1):
+                cons[i] = {}
+                bare[i] = rng.choice(["", "()", "(Int)", "(String, Int)"]) if i or True else ""
         common_fields = sorted(l for l, t in cons[0].items() if all(fs.get(l) == t for fs in cons[1:]))
         head = "pub type Rec" + ("(a)" if generic else "") + " {\n" + "".join(
-            f"  K{i}(" + ", ".join(([f"{rng.choice(['Int', 'String'])}"] if rng.random() < 0.3 else []) + [f"{l}: {t}" for l, t in fs.items()]) + ")\n"
+            (f"  K{i}{bare[i]}\n" if i in bare else
+             f"  K{i}(" + ", ".join(([f"{rng.choice(['Int', 'String'])}"] if rng.random() < 0.3 else []) + [f"{l}: {t}" for l, t in fs.items()]) + ")\n")
             for i, fs in enumerate(cons)) + "}\n"
         # unlabelled positional fields must come first in Gleam; they are no accessors
         ann = "Rec(Int)" if generic else "Rec"
